@@ -950,6 +950,111 @@ func runFSCleanup(c *core.Ctx) {
 				})
 			}
 			c.Check(flagOK, "flag-cleared:"+name, rm.Pos(), "the exists flag is cleared on the success edge of the cleanup: %v (otherwise the next write skips the layout initialisation)", flagOK)
+			// (5) the emptiness the cleanup is decided on is the index as the collection of this very pass left it:
+			//     every read of the index's entry list that feeds the guard of the cleanup comes after the call that runs
+			//     the collector
+			if par != nil {
+				var cleanupCall, collectCall *ssa.Call
+				isCollector := func(f *ssa.Function) bool {
+					hit := false
+					an.Calls(f, func(call ssa.CallInstruction) {
+						if sc := call.Common().StaticCallee(); sc != nil && sc.Parent() == nil && r.FamilyOfFunc(sc) == nil && core.FuncPkgPath(sc) == core.FuncPkgPath(fn) && sc.Signature.Results().Len() >= 1 {
+							if n := an.NamedOf(sc.Signature.Results().At(0).Type()); n != nil && n.Obj().Name() == "Index" {
+								hit = true
+							}
+						}
+					})
+					return hit
+				}
+				an.Calls(par, func(call ssa.CallInstruction) {
+					cc, ok := call.(*ssa.Call)
+					if !ok {
+						return
+					}
+					var callee *ssa.Function
+					if mc, ok := cc.Call.Value.(*ssa.MakeClosure); ok {
+						callee, _ = mc.Fn.(*ssa.Function)
+					} else {
+						callee = cc.Call.StaticCallee()
+					}
+					if callee == fn {
+						cleanupCall = cc
+					} else if callee != nil && isCollector(callee) {
+						collectCall = cc
+					}
+				})
+				if isCollector(par) && collectCall == nil {
+					// the collector is called directly in the parent
+					an.Calls(par, func(call ssa.CallInstruction) {
+						if cc, ok := call.(*ssa.Call); ok {
+							if sc := cc.Call.StaticCallee(); sc != nil && sc.Parent() == nil && r.FamilyOfFunc(sc) == nil && sc.Signature.Results().Len() >= 1 {
+								if n := an.NamedOf(sc.Signature.Results().At(0).Type()); n != nil && n.Obj().Name() == "Index" {
+									collectCall = cc
+								}
+							}
+						}
+					})
+				}
+				if cleanupCall != nil && collectCall != nil {
+					after := func(in ssa.Instruction) bool {
+						if in.Block() == collectCall.Block() {
+							for _, x := range in.Block().Instrs {
+								if x == ssa.Instruction(collectCall) {
+									return true
+								}
+								if x == in {
+									return false
+								}
+							}
+						}
+						return collectCall.Block().Dominates(in.Block())
+					}
+					stale := token.NoPos
+					var walk func(v ssa.Value, d int, seen map[ssa.Value]bool)
+					walk = func(v ssa.Value, d int, seen map[ssa.Value]bool) {
+						if v == nil || d > 8 || seen[v] {
+							return
+						}
+						seen[v] = true
+						switch x := v.(type) {
+						case *ssa.UnOp:
+							if x.Op == token.MUL {
+								_, pth := accessPath(x)
+								if len(pth) >= 2 && pth[len(pth)-1] == "Manifests" {
+									if !after(x) && stale == token.NoPos {
+										stale = x.Pos()
+									}
+									return
+								}
+							}
+							walk(x.X, d+1, seen)
+						case *ssa.BinOp:
+							walk(x.X, d+1, seen)
+							walk(x.Y, d+1, seen)
+						case *ssa.Phi:
+							for _, e := range x.Edges {
+								walk(e, d+1, seen)
+							}
+							// the conditions that select the phi's operands
+							for _, pb := range x.Block().Preds {
+								for _, g := range an.GuardingEdges(pb) {
+									walk(g.If().Cond, d+1, seen)
+								}
+							}
+						case *ssa.Call:
+							if l := lenOf(x); l != nil {
+								walk(l, d+1, seen)
+							}
+						}
+					}
+					for _, g := range an.GuardingEdges(cleanupCall.Block()) {
+						walk(g.If().Cond, 0, map[ssa.Value]bool{})
+					}
+					c.SetTags("fresh")
+					c.Check(stale == token.NoPos, "decided-after-collection:"+name, cleanupCall.Pos(), "the emptiness test that lets %s remove the repository reads the index after the collection of this pass (a read at %s precedes it): %v — otherwise a repository the pass itself emptied stays until the next pass, and a stale ‘empty’ is acted on after the index was reloaded", c.P.FuncName(par), c.P.Pos(stale), stale == token.NoPos)
+					c.SetTags()
+				}
+			}
 		}
 	}
 	if !found {
